@@ -939,6 +939,49 @@ fn limit_frames(res: &mut CaseResult, v: ProtocolVersion, rng: &mut SimRng) -> O
 			}
 		}
 	}
+	// a Headers frame whose announced length cannot even hold its item count: refused, and nothing
+	// behind the announced body is touched (a following frame must still be there)
+	for len in [0u64, 1] {
+		let mut f = vec![];
+		f.extend_from_slice(&magic());
+		f.push(Type::Headers as u8);
+		f.extend_from_slice(&len.to_be_bytes());
+		f.extend(vec![0u8; len as usize]);
+		let body_end = f.len();
+		// a well-formed ping frame follows
+		let ping = sv(&Ping { total_difficulty: grin_core::pow::Difficulty::from_num(7), height: 3 }, v);
+		f.extend_from_slice(&magic());
+		f.push(Type::Ping as u8);
+		f.extend_from_slice(&(ping.len() as u64).to_be_bytes());
+		f.extend_from_slice(&ping);
+		let following = (f.len() - body_end) as i64;
+		let d = deliver(&f, &[], v, usize::MAX);
+		res.runs += 1;
+		res.steps += 1;
+		res.fault("headers_frame_too_short_for_count");
+		res.run_digests.push((fnv64(format!("shorthdrs:{}:{}", v.0, len).as_bytes()), true));
+		let replay = json!({"engine": "wiresim", "property": "C19", "mode": "limit", "version": v.0, "stream": hexs(&f), "cuts": []});
+		if d.hung || d.outcome.panicked.is_some() {
+			return Some(viol("C19", "short-headers-frame-hang-or-panic", format!("Headers frame announcing {} bytes: reader hung={} panic={:?}", len, d.hung, d.outcome.panicked), replay));
+		}
+		let first_is_error = d.outcome.msgs.is_empty() && d.outcome.error.is_some();
+		if !first_is_error {
+			return Some(viol(
+				"C19",
+				"short-headers-frame-accepted",
+				format!("Headers frame announcing {} bytes (too short for its item count) was not refused: reader returned {:?} / {:?}", len, d.outcome.msgs.iter().map(|m| m.0.clone()).collect::<Vec<_>>(), d.outcome.error),
+				replay,
+			));
+		}
+		if d.left_unread != following {
+			return Some(viol(
+				"C19",
+				"short-headers-frame-consumed-next-frame",
+				format!("Headers frame announcing {} bytes was refused but {} bytes of the frame behind it were consumed", len, following - d.left_unread),
+				replay,
+			));
+		}
+	}
 	// wrong magic
 	for m in [[0u8, 0u8], [73, 44], [97, 61], [83, 59]] {
 		let mut f = vec![];
@@ -1349,6 +1392,20 @@ pub fn c11_case(tier: &str, seed: u64, case: u64) -> CaseResult {
 				rng.shuffle(&mut priority);
 				priority.truncate(80);
 			}
+			// single bytes anywhere in the body set to tiny values: size / bit-width parameters such
+			// as a proof's edge_bits are one byte wide and only small values reach their lower guards
+			for _ in 0..60 {
+				if body_len == 0 {
+					break;
+				}
+				let off = 11 + rng.usize_below(body_len);
+				let val = *rng.pick(&[1u8, 2, 7]);
+				if base[off] != val {
+					let mut f = base.clone();
+					f[off] = val;
+					priority.push((format!("smallbyte@{}={}", off, val), f));
+				}
+			}
 			// tag / feature bytes swept
 			for off in 11..(11 + body_len.min(24)) {
 				for val in [0u8, 1, 2, 3, 4, 5, 0x7f, 0x80, 0xfe, 0xff] {
@@ -1389,7 +1446,7 @@ pub fn c11_case(tier: &str, seed: u64, case: u64) -> CaseResult {
 			rng.shuffle(&mut variants);
 			let take = (budget / all.len().max(1)).max(40);
 			variants.truncate(take);
-			res.fault_n("mutation:count-field", priority.len() as u64);
+			res.fault_n("mutation:count-length-smallbyte", priority.len() as u64);
 			variants.extend(priority);
 			for (what, f) in variants.into_iter() {
 				let cut = if rng.chance(1, 4) && f.len() > 1 { Some(1 + rng.usize_below(f.len() - 1)) } else { None };
@@ -1397,7 +1454,7 @@ pub fn c11_case(tier: &str, seed: u64, case: u64) -> CaseResult {
 				res.runs += 1;
 				res.steps += 1;
 				let kind = what.split('@').next().unwrap_or("").split('[').next().unwrap_or("").split('=').next().unwrap_or("").to_string();
-				if !kind.starts_with("count") && !kind.starts_with("length") {
+				if !kind.starts_with("count") && !kind.starts_with("length") && !kind.starts_with("smallbyte") {
 					res.fault(&format!("mutation:{}", kind));
 				}
 				res.run_digests.push((fnv64(&f), true));
